@@ -1059,22 +1059,11 @@ class Variable(CanBehaveLikeAVariable[T]):
         if self._id_ in sources:
             # the truthiness of a bound value is a condition only where the variable is used as one
             is_false = False
-            if (
-                isinstance(self._parent_, LogicalOperator)
-                or self is self._conditions_root_
-            ):
+            if self._is_evaluated_as_condition_by_(parent):
                 self._is_false_ = is_false = not bool(sources[self._id_])
             yield OperationResult(sources, is_false, self)
         elif self._domain_:
-            # a variable or a constant used as a condition (and_(cond, False), entity(flag, flag)) is read by its truth
-            # value; everywhere else (an operand, a selected or a quantified variable) a value is just a value
-            is_condition = (
-                isinstance(parent, LogicalOperator)
-                and not (
-                    isinstance(parent, QuantifiedConditional)
-                    and parent.variable is self
-                )
-            ) or (isinstance(parent, QueryObjectDescriptor) and parent._child_ is self)
+            is_condition = self._is_evaluated_as_condition_by_(parent)
             for v in self._domain_:
                 yield OperationResult(
                     {**sources, self._id_: HashedValue(v)},
@@ -1087,6 +1076,20 @@ class Variable(CanBehaveLikeAVariable[T]):
             )
         else:
             raise ValueError("Cannot evaluate variable.")
+
+    def _is_evaluated_as_condition_by_(
+        self, parent: Optional[SymbolicExpression]
+    ) -> bool:
+        """
+        A variable or a constant used as a condition (and_(cond, False), entity(flag, flag), not_(flag)) is read by its truth
+        value; everywhere else (an operand, a selected or a quantified variable) a value is just a value. The role is that
+        of this evaluation: a variable is shared by all the queries that use it.
+        """
+        if isinstance(parent, QuantifiedConditional) and parent.variable is self:
+            return False
+        return isinstance(parent, LogicalOperator) or (
+            isinstance(parent, QueryObjectDescriptor) and parent._child_ is self
+        )
 
     @cached_property
     def _should_be_instantiated_(self):
